@@ -100,8 +100,9 @@ Qed.
 
 (** the close side of the bracket, and the whole bracket after the mount's marking: at EVERY point between two device writes of any
     history of interface calls followed by close, the dirty flag is in the boot sector, or the device already holds the closed image
-    everywhere outside the boot-sector copies — "a device state that carries no mark is always complete".  Not proved: the points INSIDE the
-    mount's own marking (FAT16/32: the cleared FAT[1] bit is the only mark until the boot sector is written), torn single writes of close. *)
+    everywhere outside the boot-sector copies — "a device state that carries no mark is always complete".  The mount's own marking: C11_mount_bracket below.
+    Not proved: FAT16/32 between the first FAT copy and the boot-sector write of the mount (the cleared FAT[1] bit on the device is the only mark
+    there), torn single writes of mount and close. *)
 From PyFatV Require Import Proofs.Bracket.
 Theorem C11_close_bracket : forall s s',
   dev_ok (s_dev s) -> hdr_wf (s_h s) -> flagged (s_dev s) (s_dsize s) ->
@@ -123,6 +124,18 @@ Theorem C11_session_bracket : forall s1 s2 s3,
       forall a, 0 <= a -> ~ in_boot_copies s1 a -> dbyte (apply_log earlier (s_dev s1)) a = dbyte (s_dev s3) a.
 Proof. exact session_bracket. Qed.
 Print Assumptions C11_session_bracket.
+(** the mount side: from the moment the boot sector has been written the flag is on the device, whatever else of the marking has reached it;
+    on FAT12 that is from the FIRST device write of the mount on *)
+Theorem C11_mount_bracket : forall s s',
+  dev_ok (s_dev s) -> hdr_wf (s_h s) -> 0 <= BS_Reserved1 (s_h s) < 256 -> 512 <= s_dsize s ->
+  512 <= fat_start s -> 0 <= fat_bytes s -> (ft s = Gen.FAT_TYPE_FAT32 -> 512 <= BPB_BkBootSec (s_h s) * bps s) ->
+  mark_dirty s = Ok s' ->
+  exists l, s_log s' = l ++ s_log s /\ s_dev s' = apply_log l (s_dev s) /\
+    forall later earlier, l = later ++ earlier ->
+      (ft s = Gen.FAT_TYPE_FAT12 -> earlier <> [] -> flagged (apply_log earlier (s_dev s)) (s_dsize s)) /\
+      (In (0, ser_hdr (s_h s')) earlier -> flagged (apply_log earlier (s_dev s)) (s_dsize s)).
+Proof. exact mount_bracket. Qed.
+Print Assumptions C11_mount_bracket.
 (** non-vacuity: the premises hold for the history of C11_history_example (a makedir and a file creation on the FAT16 volume after its
     dirty marking), and closing it succeeds with 5 further writes (two FAT copies, boot sector, signature ... ) *)
 Definition ex11_c : st := match mark_clean ex11_b with Ok s => s | Err _ => ex11_b end.
